@@ -131,6 +131,9 @@ type c12Item struct {
 	Block    bool     `json:"block,omitempty"`
 	Detached []string `json:"detached,omitempty"` // comment lines above, separated by a blank line
 	Trailing string   `json:"trailing,omitempty"`
+	// Multi: the declaration spans several lines (nested struct / interface body / multi-line literal); its trailing comment sits
+	// on the closing line and is not asserted through Comment(), but it must not become the doc of the next declaration
+	Multi bool `json:"multi,omitempty"`
 }
 
 type c12Decl struct {
@@ -138,6 +141,8 @@ type c12Decl struct {
 	Kind  string    `json:"kind"`
 	Item  c12Item   `json:"item"`            // the declaration itself (for groups: the comment above the group keyword)
 	Items []c12Item `json:"items,omitempty"` // group members / struct fields
+	// Tight: no blank line between this declaration and the previous one
+	Tight bool `json:"tight,omitempty"`
 }
 
 type c12Layout struct {
@@ -192,7 +197,9 @@ func genC12Layout(t *rapid.T) c12Layout {
 				if multi && rapid.IntRange(0, 3).Draw(t, "multiname") == 0 {
 					names = append(names, name(prefix))
 				}
-				items = append(items, genC12Item(t, names, true))
+				it := genC12Item(t, names, true)
+				it.Multi = len(names) == 1 && rapid.IntRange(0, 4).Draw(t, "multi") == 0
+				items = append(items, it)
 			}
 			return items
 		}
@@ -211,6 +218,10 @@ func genC12Layout(t *rapid.T) c12Layout {
 			d = c12Decl{Kind: "var", Item: genC12Item(t, []string{name("V")}, true)}
 		default:
 			d = c12Decl{Kind: "vargroup", Item: genC12Item(t, nil, false), Items: members("W", true, 1)}
+		}
+		d.Tight = i > 0 && rapid.IntRange(0, 2).Draw(t, "tight") == 0
+		if d.Kind == "type" || d.Kind == "var" {
+			d.Item.Multi = rapid.IntRange(0, 4).Draw(t, "multidecl") == 0
 		}
 		l.Decls = append(l.Decls, d)
 	}
@@ -246,33 +257,52 @@ func (it c12Item) tail() string {
 func (l c12Layout) source() string {
 	b := &strings.Builder{}
 	b.WriteString("package p\n\n")
-	for _, d := range l.Decls {
+	for di, d := range l.Decls {
+		if di > 0 && !d.Tight {
+			b.WriteString("\n")
+		}
 		d.Item.lead(b, "")
 		switch d.Kind {
 		case "type":
-			fmt.Fprintf(b, "type %s int%s\n\n", d.Item.Names[0], d.Item.tail())
+			if d.Item.Multi {
+				fmt.Fprintf(b, "type %s struct {\n\tInner int\n}%s\n", d.Item.Names[0], d.Item.tail())
+			} else {
+				fmt.Fprintf(b, "type %s int%s\n", d.Item.Names[0], d.Item.tail())
+			}
 		case "const":
-			fmt.Fprintf(b, "const %s = 1%s\n\n", d.Item.Names[0], d.Item.tail())
+			fmt.Fprintf(b, "const %s = 1%s\n", d.Item.Names[0], d.Item.tail())
 		case "var":
-			fmt.Fprintf(b, "var %s int%s\n\n", d.Item.Names[0], d.Item.tail())
+			if d.Item.Multi {
+				fmt.Fprintf(b, "var %s = []int{\n\t1,\n}%s\n", d.Item.Names[0], d.Item.tail())
+			} else {
+				fmt.Fprintf(b, "var %s int%s\n", d.Item.Names[0], d.Item.tail())
+			}
 		case "struct":
 			if len(d.Items) == 0 {
-				fmt.Fprintf(b, "type %s struct{}\n\n", d.Item.Names[0])
+				fmt.Fprintf(b, "type %s struct{}\n", d.Item.Names[0])
 				continue
 			}
 			fmt.Fprintf(b, "type %s struct {\n", d.Item.Names[0])
 			for _, it := range d.Items {
 				it.lead(b, "\t")
-				fmt.Fprintf(b, "\t%s int%s\n", strings.Join(it.Names, ", "), it.tail())
+				if it.Multi {
+					fmt.Fprintf(b, "\t%s struct {\n\t\tInner int\n\t}%s\n", it.Names[0], it.tail())
+				} else {
+					fmt.Fprintf(b, "\t%s int%s\n", strings.Join(it.Names, ", "), it.tail())
+				}
 			}
-			b.WriteString("}\n\n")
+			b.WriteString("}\n")
 		case "typegroup":
 			b.WriteString("type (\n")
 			for _, it := range d.Items {
 				it.lead(b, "\t")
-				fmt.Fprintf(b, "\t%s string%s\n", it.Names[0], it.tail())
+				if it.Multi {
+					fmt.Fprintf(b, "\t%s interface {\n\t\tM()\n\t}%s\n", it.Names[0], it.tail())
+				} else {
+					fmt.Fprintf(b, "\t%s string%s\n", it.Names[0], it.tail())
+				}
 			}
-			b.WriteString(")\n\n")
+			b.WriteString(")\n")
 		case "constgroup", "vargroup":
 			b.WriteString(strings.TrimSuffix(d.Kind, "group") + " (\n")
 			for _, it := range d.Items {
@@ -281,9 +311,13 @@ func (l c12Layout) source() string {
 				for i := range vals {
 					vals[i] = fmt.Sprint(i + 1)
 				}
-				fmt.Fprintf(b, "\t%s = %s%s\n", strings.Join(it.Names, ", "), strings.Join(vals, ", "), it.tail())
+				if it.Multi {
+					fmt.Fprintf(b, "\t%s = 1 +\n\t\t2%s\n", it.Names[0], it.tail())
+				} else {
+					fmt.Fprintf(b, "\t%s = %s%s\n", strings.Join(it.Names, ", "), strings.Join(vals, ", "), it.tail())
+				}
 			}
-			b.WriteString(")\n\n")
+			b.WriteString(")\n")
 		}
 	}
 	return b.String()
@@ -310,6 +344,9 @@ func checkItem(p gengotypes.Package, what string, pos token.Pos, it c12Item) err
 		if strings.TrimSpace(lines[i]) != wantLines[i] {
 			return fmt.Errorf("%s: Doc line %d = %q, want %q", what, i, lines[i], wantLines[i])
 		}
+	}
+	if it.Multi {
+		return nil // where the trailing comment of a multi-line declaration is reported is not asserted
 	}
 	cm := p.Comment(pos)
 	var wantC []string
@@ -400,6 +437,9 @@ func c12Features(l c12Layout) []string {
 		}
 		if len(it.Names) > 1 {
 			fs["multi-name"] = true
+		}
+		if it.Multi && it.Trailing != "" {
+			fs["multi-line-declaration-with-trailing-comment"] = true
 		}
 		prevTrailing = it.Trailing != ""
 	}
